@@ -57,6 +57,8 @@ pub struct Backend {
     pub local_encrypt: fn(&[u8], &[u8], &[u8], &[u8], SealVia) -> R<String>,
     /// (claims, footer)
     pub local_decrypt: fn(&[u8], &str, &[u8], bool) -> R<(Vec<u8>, Vec<u8>)>,
+    /// unseal (local / public by the flag) through a TYPED footer (impls::TrimFooter); returns claims and the decoded footer
+    pub unseal_typed_footer: fn(bool, &[u8], &str, &[u8]) -> R<(Vec<u8>, Vec<u8>)>,
     pub public_sign: fn(&[u8], &[u8], &[u8], &[u8], SealVia) -> R<String>,
     pub public_verify: fn(&[u8], &str, &[u8], bool) -> R<(Vec<u8>, Vec<u8>)>,
     /// LocalKey::random() -> raw bytes
@@ -125,6 +127,21 @@ macro_rules! backend {
                 let t = SealedToken::<$V, Local, Raw, Vec<u8>>::from_str(tok)?;
                 let u = if plain { t.decrypt(&k, &NoValidation::dangerous_no_validation())? } else { t.decrypt_with_aad(&k, a, &NoValidation::dangerous_no_validation())? };
                 Ok((u.claims.0, u.footer))
+            })
+        }
+        fn unseal_typed_footer(local: bool, key: &[u8], tok: &str, a: &[u8]) -> R<(Vec<u8>, Vec<u8>)> {
+            guard(|| {
+                if local {
+                    let k = key_from::<$V, Local>(key)?;
+                    let t = SealedToken::<$V, Local, Raw, crate::impls::TrimFooter>::from_str(tok)?;
+                    let u = t.unseal(&k, a, &NoValidation::dangerous_no_validation())?;
+                    Ok((u.claims.0, u.footer.0))
+                } else {
+                    let k = key_from::<$V, Public>(key)?;
+                    let t = SealedToken::<$V, Public, Raw, crate::impls::TrimFooter>::from_str(tok)?;
+                    let u = t.unseal(&k, a, &NoValidation::dangerous_no_validation())?;
+                    Ok((u.claims.0, u.footer.0))
+                }
             })
         }
         fn public_sign(sk: &[u8], m: &[u8], f: &[u8], a: &[u8], via: SealVia) -> R<String> {
@@ -337,6 +354,7 @@ macro_rules! backend {
             local_seal_nonce,
             local_encrypt,
             local_decrypt,
+            unseal_typed_footer,
             public_sign,
             public_verify,
             local_random,
